@@ -356,6 +356,18 @@ def product_law_case(translated=False):
 
         D._sample_uniform_b_points = rec
         npc = len(env.ctx.pc) if env.symbolic else 0
+        # history: a second acceptance round on the SAME product object uses the bound of ITS OWN proposals
+        if env.symbolic:
+            n1 = len(env.ctx.rand_calls)
+        n_out2, _, _ = orig(2)
+        out["n_out2"] = n_out2
+        if env.symbolic:
+            from symtorch.harness import _zr as _z
+            calls2 = env.ctx.rand_calls[n1:]
+            out["bdraw2"] = [_z(v) for v in calls2[0][2]]
+            out["udraw2"] = [_z(v) for v in calls2[1][2]]
+            out["pc2"] = list(env.ctx.pc)[npc:]
+            npc = len(env.ctx.pc)
         try:
             D.sample_random_uniform(n=1)
         except Exception as e:  # noqa  (unwinding etc. are BaseException-free here; a real failure is C01's business)
@@ -388,6 +400,13 @@ def product_law_case(translated=False):
         pc = L.And(*o["pc"]) if o["pc"] else True
         kept = o["n_out"]
         yield "path_accepts_exactly_rows_with_M_u_lt_v", L.Implies(pc, z3.If(want[0], 1, 0) + z3.If(want[1], 1, 0) == kept)
+        ts2 = [o["lb"] + u * (o["ub"] - o["lb"]) for u in o["bdraw2"]]
+        vs2 = [a.oset.volume({"t": [t]}, L) for t in ts2]
+        M2 = L.max(vs2[0], vs2[1])
+        want2 = [L.lt(M2 * u, v) for u, v in zip(o["udraw2"], vs2)]
+        pc2 = L.And(*(o["pc"] + o["pc2"])) if (o["pc"] or o["pc2"]) else True
+        yield "second_round_accepts_exactly_rows_with_M_u_lt_v", L.Implies(
+            pc2, z3.If(want2[0], 1, 0) + z3.If(want2[1], 1, 0) == o["n_out2"])
 
     return Case(cname, body, goals, family="dependent_product", params=dict(translated=translated), max_paths=16)
 
